@@ -1,4 +1,5 @@
 import ZCV.Lemmas.SubstExtra
+import ZCV.Lemmas.SubstCor
 /-!
 # C04 — `$`-substitution computes exactly the documented replacement function
 
@@ -53,5 +54,239 @@ theorem C04_missing_carries_source (defs env : Str → Option Str) (s a b : Str)
   rw [h] at h1
   simp only [conv, toSpecErr, substituteSpec] at h1
   exact spec_missing_source defs env s s.length s a b (Nat.le_refl _) h1.symm
+
+/-! ## The documented clauses, one `$` construct at a time (corollaries about the MODEL)
+
+Every non-trivial string is `pre ++ "$" ++ t` with `pre` free of `$`; `t` is the text after the first `$`.
+`withSource s r` is `r` with the source quoted by a replacement error replaced by `s` (the error raised while
+substituting into the rest of the text still quotes the WHOLE text).  The relations `IsRef`, `Replaced`, `Malformed`
+(`ZCV/Lemmas/SubstCor.lean`) describe the construct in plain list terms: no regular expression, no index. -/
+
+/-- One construct at a time.  The model, on a text whose first `$` is followed by `t`: a malformed construct gives the
+    syntax error; `$$` gives `$`; a reference gives its value (mapping lookups lower-cased, environment lookups not) or
+    the replacement error; the text before the `$` is copied, and substitution goes on with the text after the construct
+    only. -/
+theorem C04_one_construct (defs env : Str → Option Str) (pre t : Str) (hp : '$' ∉ pre) :
+    substitute defs env (pre ++ '$' :: t) =
+      match firstConstruct t with
+      | .malformed c => .error (.syntax c)
+      | .esc r => withSource (pre ++ '$' :: t) ((substitute defs env r).map (pre ++ '$' :: ·))
+      | .ref name vt r =>
+        match lookupRef defs env vt name with
+        | none => .error (.missing (pre ++ '$' :: t) name)
+        | some v => withSource (pre ++ '$' :: t) ((substitute defs env r).map (pre ++ v ++ ·)) :=
+  substcor_model_step defs env pre t hp
+
+/-- Every `$` construct is malformed, or replaced by a value, or a reference without a value — whatever the text. -/
+theorem C04_fates (defs env : Str → Option Str) (t : Str) :
+    (∃ c, Malformed t c) ∨ (∃ v r, Replaced defs env t v r) ∨
+      (∃ name vt r, IsRef t name vt r ∧ lookupRef defs env vt name = none) :=
+  substcor_fates defs env t
+
+/-- A construct that is replaced by `v` (`$$` by `$`, a reference by its value): the result is the text before it, then
+    `v`, then the substitution of the text AFTER the construct. -/
+theorem C04_replaced (defs env : Str → Option Str) (pre t v r : Str) (hp : '$' ∉ pre)
+    (h : Replaced defs env t v r) :
+    substitute defs env (pre ++ '$' :: t) =
+      withSource (pre ++ '$' :: t) ((substitute defs env r).map (pre ++ v ++ ·)) :=
+  substcor_replaced defs env pre t v r hp h
+
+/-- `${Ab}` with the mapping knowing `ab` only, its value full of `$`: an instance of `Replaced` -/
+example : Replaced (fun k => if k = "ab".toList then some "$x".toList else none) (fun _ => none)
+    "{Ab}-".toList "$x".toList "-".toList :=
+  .ref (.brace "Ab".toList "-".toList (by decide)) (by decide)
+
+/-- `$$` is replaced by `$`: `pre$$post` gives `pre$` followed by the substitution of `post` (or the error of `post`,
+    a replacement error quoting the whole text). -/
+theorem C04_dollar_dollar (defs env : Str → Option Str) (pre post : Str) (hp : '$' ∉ pre) :
+    substitute defs env (pre ++ '$' :: '$' :: post) =
+      withSource (pre ++ '$' :: '$' :: post) ((substitute defs env post).map (pre ++ '$' :: ·)) := by
+  have := substcor_replaced defs env pre ('$' :: post) ['$'] post hp (.esc post)
+  rw [this]
+  congr 2
+  funext x
+  simp only [List.append_assoc, List.singleton_append]
+
+example : substitute (fun _ => none) (fun _ => none) "a$$$$b".toList = .ok "a$$b".toList := by
+  rw [substcor_eval_eq]; decide +kernel
+
+/-- Mapping lookups are lower-cased, environment lookups are not.  `$Name…` and `${Name}…` consult the mapping at
+    `lower Name` (and at nothing else); `$(NAME)…` consults the environment at `NAME` as written.  In each case a value
+    is spliced in and substitution goes on after the reference; no value gives the replacement error carrying the name
+    AS WRITTEN and the whole text. -/
+theorem C04_case (defs env : Str → Option Str) (pre name rest : Str) (hp : '$' ∉ pre)
+    (hn : isnameSpec name = true) :
+    -- `$Name`, the name being maximal
+    ((∀ c ∈ rest.head?, isNameChar c = false) →
+      substitute defs env (pre ++ '$' :: (name ++ rest)) =
+        match defs (lower name) with
+        | none => .error (.missing (pre ++ '$' :: (name ++ rest)) name)
+        | some v => withSource (pre ++ '$' :: (name ++ rest)) ((substitute defs env rest).map (pre ++ v ++ ·))) ∧
+    -- `${Name}`
+    (substitute defs env (pre ++ '$' :: '{' :: (name ++ '}' :: rest)) =
+        match defs (lower name) with
+        | none => .error (.missing (pre ++ '$' :: '{' :: (name ++ '}' :: rest)) name)
+        | some v => withSource (pre ++ '$' :: '{' :: (name ++ '}' :: rest))
+            ((substitute defs env rest).map (pre ++ v ++ ·))) ∧
+    -- `$(NAME)`
+    (substitute defs env (pre ++ '$' :: '(' :: (name ++ ')' :: rest)) =
+        match env name with
+        | none => .error (.missing (pre ++ '$' :: '(' :: (name ++ ')' :: rest)) name)
+        | some v => withSource (pre ++ '$' :: '(' :: (name ++ ')' :: rest))
+            ((substitute defs env rest).map (pre ++ v ++ ·))) := by
+  refine ⟨fun hr => ?_, ?_, ?_⟩
+  · rw [substcor_model_step _ _ _ _ hp, (substcor_first_ref _ _ _ _).2 (.bare name rest hn hr)]
+    simp only [lookupRef]
+    cases defs (lower name) <;> rfl
+  · rw [substcor_model_step _ _ _ _ hp, (substcor_first_ref _ _ _ _).2 (.brace name rest hn)]
+    simp only [lookupRef]
+    cases defs (lower name) <;> rfl
+  · rw [substcor_model_step _ _ _ _ hp, (substcor_first_ref _ _ _ _).2 (.paren name rest hn)]
+    simp only [lookupRef]
+    cases env name <;> rfl
+
+/-- the mapping knows `name` only, the environment `NAME` only: `$NaMe`, `${NAME}` find the first, `$(NAME)` the second,
+    `$(name)` nothing -/
+example :
+    let defs : Str → Option Str := fun k => if k = "name".toList then some "v".toList else none
+    let env : Str → Option Str := fun k => if k = "NAME".toList then some "E".toList else none
+    substitute defs env "$NaMe ${NAME} $(NAME)".toList = .ok "v v E".toList ∧
+    substitute defs env "$(name)".toList = .error (.missing "$(name)".toList "name".toList) := by
+  simp only [substcor_eval_eq]; decide +kernel
+
+/-- Replacement text is never rescanned: if the mapping gives `v` for (the lower-cased) `name`, then `pre$name rest`
+    (`rest` not continuing the name) is `pre`, then `v` AS IS — whatever it contains, `$` constructs included — then the
+    substitution of `rest` alone. -/
+theorem C04_no_rescan (defs env : Str → Option Str) (pre name rest v : Str) (hp : '$' ∉ pre)
+    (hn : isnameSpec name = true) (hr : ∀ c ∈ rest.head?, isNameChar c = false)
+    (hv : defs (lower name) = some v) :
+    substitute defs env (pre ++ '$' :: (name ++ rest)) =
+      withSource (pre ++ '$' :: (name ++ rest)) ((substitute defs env rest).map (pre ++ v ++ ·)) := by
+  rw [(C04_case defs env pre name rest hp hn).1 hr, hv]
+
+/-- the same for `${name}` -/
+theorem C04_no_rescan_braces (defs env : Str → Option Str) (pre name rest v : Str) (hp : '$' ∉ pre)
+    (hn : isnameSpec name = true) (hv : defs (lower name) = some v) :
+    substitute defs env (pre ++ '$' :: '{' :: (name ++ '}' :: rest)) =
+      withSource (pre ++ '$' :: '{' :: (name ++ '}' :: rest)) ((substitute defs env rest).map (pre ++ v ++ ·)) := by
+  rw [(C04_case defs env pre name rest hp hn).2.1, hv]
+
+/-- the same for `$(NAME)` -/
+theorem C04_no_rescan_env (defs env : Str → Option Str) (pre name rest v : Str) (hp : '$' ∉ pre)
+    (hn : isnameSpec name = true) (hv : env name = some v) :
+    substitute defs env (pre ++ '$' :: '(' :: (name ++ ')' :: rest)) =
+      withSource (pre ++ '$' :: '(' :: (name ++ ')' :: rest)) ((substitute defs env rest).map (pre ++ v ++ ·)) := by
+  rw [(C04_case defs env pre name rest hp hn).2.2, hv]
+
+/-- values full of `$` constructs (a reference to an undefined name, a lone `$`) come out untouched -/
+example :
+    let defs : Str → Option Str := fun k => if k = "a".toList then some "${b}$".toList else none
+    substitute defs (fun _ => none) "x$a-${A}".toList = .ok "x${b}$-${b}$".toList := by
+  simp only [substcor_eval_eq]; decide +kernel
+
+/-- `$name` takes the maximal run of name characters: after a letter or underscore `c`, the name is `c` followed by ALL
+    the letters, digits and underscores that follow, and the text goes on where they stop. -/
+theorem C04_maximal_name (defs env : Str → Option Str) (pre : Str) (c : Char) (r : Str) (hp : '$' ∉ pre)
+    (hc : isNameStart c = true) :
+    substitute defs env (pre ++ '$' :: c :: r) =
+      match defs (lower (c :: r.takeWhile isNameChar)) with
+      | none => .error (.missing (pre ++ '$' :: c :: r) (c :: r.takeWhile isNameChar))
+      | some v => withSource (pre ++ '$' :: c :: r)
+          ((substitute defs env (r.dropWhile isNameChar)).map (pre ++ v ++ ·)) := by
+  have hn : isnameSpec (c :: r.takeWhile isNameChar) = true := by
+    simp only [isnameSpec, hc, substcor_all_takeWhile, Bool.and_self]
+  have := (C04_case defs env pre (c :: r.takeWhile isNameChar) (r.dropWhile isNameChar) hp hn).1
+    (substcor_head_dropWhile _ _)
+  simp only [List.cons_append, List.takeWhile_append_dropWhile] at this
+  exact this
+
+/-- `$ab1_c-d` looks up `ab1_c`, not `a` nor `ab` -/
+example :
+    let defs : Str → Option Str := fun k => if k = "ab1_c".toList then some "V".toList else
+      if k = "a".toList then some "wrong".toList else none
+    substitute defs (fun _ => none) "$ab1_c-d".toList = .ok "V-d".toList := by
+  simp only [substcor_eval_eq]; decide +kernel
+
+/-- A malformed construct gives the syntax error, at the raise site the relation names: a trailing lone `$` (0); `$`
+    followed by something that is not `$`, `{`, `(`, a letter or an underscore (5); `${` / `$(` followed by no name —
+    empty or starting with an illegal character (1 / 3); `${name` / `$(name` not followed by `}` / `)` — unterminated, or an
+    illegal character in the name (2 / 4). -/
+theorem C04_malformed (defs env : Str → Option Str) (pre t : Str) (c : Nat) (hp : '$' ∉ pre) (h : Malformed t c) :
+    substitute defs env (pre ++ '$' :: t) = .error (.syntax c) :=
+  substcor_malformed defs env pre t c hp h
+
+example : Malformed "{a-b}".toList 2 := .braceClose "a".toList "-b}".toList (by decide) (by decide)
+example : Malformed "(A".toList 4 := .parenClose "A".toList [] (by decide) (by decide)
+example : Malformed "-".toList 5 := .other '-' [] (by decide) (by decide) (by decide) (by decide)
+
+/-- When the result is the syntax error.  For a text whose first `$` is followed by `t`: the result is the syntax error
+    `c` exactly when the first construct is malformed at site `c` (see `C04_malformed` for the list), or the first
+    construct is replaced and the text after it gives the syntax error `c`.  (A reference without a value gives the
+    replacement error instead, whatever follows.) -/
+theorem C04_syntax_error_iff (defs env : Str → Option Str) (pre t : Str) (c : Nat) (hp : '$' ∉ pre) :
+    substitute defs env (pre ++ '$' :: t) = .error (.syntax c) ↔
+      Malformed t c ∨ ∃ v r, Replaced defs env t v r ∧ substitute defs env r = .error (.syntax c) :=
+  substcor_syntax_iff defs env pre t c hp
+
+/-- the list of malformed constructs, spelled out on lists -/
+theorem C04_malformed_iff (t : Str) (c : Nat) :
+    Malformed t c ↔
+      (t = [] ∧ c = 0) ∨
+      (∃ d r, t = d :: r ∧ d ≠ '$' ∧ d ≠ '{' ∧ d ≠ '(' ∧ isNameStart d = false ∧ c = 5) ∨
+      (∃ r, t = '{' :: r ∧ (∀ x ∈ r.head?, isNameStart x = false) ∧ c = 1) ∨
+      (∃ n r, t = '{' :: (n ++ r) ∧ isnameSpec n = true ∧ (∀ x ∈ r.head?, isNameChar x = false ∧ x ≠ '}') ∧ c = 2) ∨
+      (∃ r, t = '(' :: r ∧ (∀ x ∈ r.head?, isNameStart x = false) ∧ c = 3) ∨
+      (∃ n r, t = '(' :: (n ++ r) ∧ isnameSpec n = true ∧ (∀ x ∈ r.head?, isNameChar x = false ∧ x ≠ ')') ∧ c = 4) := by
+  constructor
+  · intro h
+    cases h with
+    | lone => exact .inl ⟨rfl, rfl⟩
+    | other d r h1 h2 h3 h4 => exact .inr (.inl ⟨d, r, rfl, h1, h2, h3, h4, rfl⟩)
+    | braceName r k => exact .inr (.inr (.inl ⟨r, rfl, k, rfl⟩))
+    | braceClose n r hn hr => exact .inr (.inr (.inr (.inl ⟨n, r, rfl, hn, hr, rfl⟩)))
+    | parenName r k => exact .inr (.inr (.inr (.inr (.inl ⟨r, rfl, k, rfl⟩))))
+    | parenClose n r hn hr => exact .inr (.inr (.inr (.inr (.inr ⟨n, r, rfl, hn, hr, rfl⟩))))
+  · rintro (⟨rfl, rfl⟩ | ⟨d, r, rfl, h1, h2, h3, h4, rfl⟩ | ⟨r, rfl, k, rfl⟩ | ⟨n, r, rfl, hn, hr, rfl⟩ |
+      ⟨r, rfl, k, rfl⟩ | ⟨n, r, rfl, hn, hr, rfl⟩)
+    · exact .lone
+    · exact .other d r h1 h2 h3 h4
+    · exact .braceName r k
+    · exact .braceClose n r hn hr
+    · exact .parenName r k
+    · exact .parenClose n r hn hr
+
+/-- one text per raise site; `${a}}` and `$a{` are fine -/
+example :
+    let S := fun (s : String) => substitute (fun _ => some []) (fun _ => some []) s.toList
+    S "x$" = .error (.syntax 0) ∧ S "$-" = .error (.syntax 5) ∧ S "$1" = .error (.syntax 5) ∧
+    S "${}" = .error (.syntax 1) ∧ S "${1a}" = .error (.syntax 1) ∧ S "${a" = .error (.syntax 2) ∧
+    S "${a-b}" = .error (.syntax 2) ∧ S "$()" = .error (.syntax 3) ∧ S "$(A" = .error (.syntax 4) ∧
+    S "$(A}" = .error (.syntax 4) ∧ S "$$$" = .error (.syntax 0) ∧ S "${a}}" = .ok "}".toList ∧
+    S "$a{" = .ok "{".toList := by
+  simp only [substcor_eval_eq]; decide +kernel
+
+/-- A reference without a value, as the first construct: the replacement error carries exactly the name as written
+    (not lower-cased, nothing more, nothing less) and the whole source text. -/
+theorem C04_missing_first (defs env : Str → Option Str) (pre t name : Str) (vt : VT) (r : Str) (hp : '$' ∉ pre)
+    (h : IsRef t name vt r) (hv : lookupRef defs env vt name = none) :
+    substitute defs env (pre ++ '$' :: t) = .error (.missing (pre ++ '$' :: t) name) :=
+  substcor_unresolved defs env pre t name vt r hp h hv
+
+example : IsRef "ab1-c".toList "ab1".toList .define "-c".toList :=
+  .bare "ab1".toList "-c".toList (by decide) (by decide)
+
+/-- The replacement error carries exactly the name as written and the whole source text: whenever `substitute` raises
+    it, the source is the text given, and the name is that of a reference occurring in the text (`$name` taken
+    maximally, `${name}` or `$(NAME)`), exactly as written there, whose lookup (mapping at the lower-cased name,
+    environment at the name as written) finds nothing. -/
+theorem C04_missing_carries_name (defs env : Str → Option Str) (s a b : Str)
+    (h : substitute defs env s = .error (.missing a b)) :
+    a = s ∧ ∃ pre t vt rest, s = pre ++ '$' :: t ∧ IsRef t b vt rest ∧ lookupRef defs env vt b = none :=
+  substcor_model_missing defs env s a b h
+
+example :
+    substitute (fun k => if k = "a".toList then some [] else none) (fun _ => none) "$a ${Bc_1} $a".toList =
+      .error (.missing "$a ${Bc_1} $a".toList "Bc_1".toList) := by
+  simp only [substcor_eval_eq]; decide +kernel
 
 end ZCV.Props.C04
